@@ -12,6 +12,7 @@ mod msops;
 mod desc;
 mod c01;
 mod c02;
+mod c03;
 mod c04;
 mod c05;
 mod c06;
@@ -21,12 +22,15 @@ mod c09;
 mod c10;
 mod c10b;
 mod c12;
+mod c13;
 mod c14;
 mod c11expr;
 mod c15;
 mod c16;
 mod c17;
 mod c18;
+mod c19;
+mod c20;
 
 use std::env;
 
@@ -44,6 +48,7 @@ fn main() {
     match prop {
         "C01" => c01::run(&mut out, thorough, seed),
         "C02" => c02::run(&mut out, thorough, seed),
+        "C03" => c03::run(&mut out, thorough, seed),
         "C04" => c04::run(&mut out, thorough, seed),
         "C05" => c05::run(&mut out, thorough, seed),
         "C06" => c06::run(&mut out, thorough, seed),
@@ -53,11 +58,14 @@ fn main() {
         "C10" => c10::run(&mut out, thorough, seed),
         "C11" => c11expr::run(&mut out, thorough, seed),
         "C12" => c12::run(&mut out, thorough, seed),
+        "C13" => c13::run(&mut out, thorough, seed),
         "C14" => c14::run(&mut out, thorough, seed),
         "C15" => c15::run(&mut out, thorough, seed),
         "C16" => c16::run(&mut out, thorough, seed),
         "C17" => c17::run(&mut out, thorough, seed),
         "C18" => c18::run(&mut out, thorough, seed),
+        "C19" => c19::run(&mut out, thorough, seed),
+        "C20" => c20::run(&mut out, thorough, seed),
         _ => {
             eprintln!("unknown property {}", prop);
             std::process::exit(2);
